@@ -905,4 +905,383 @@ theorem finish_nfx {cfg : GenCfg} {O Tj Tl Td Ts : List Ty} {t' : Ty} (hO : OPre
         rw [isOpt_kind] at h3
         simp [this] at h3
 
+/-! ### the induction -/
+
+/-- the induction hypothesis of the canonical-form proof -/
+def NfxIH (cfg : GenCfg) (e : EqEnv) (f : Nat) : Prop :=
+  ∀ t t', Raw cfg t = true → rawK cfg t = true → optimize cfg e f t = .ok t' →
+    nfx cfg t' = true ∧ (rawD cfg t = true → t'.isOptNull = false)
+
+theorem optimizeUnion_nfx_step {cfg : GenCfg} {e : EqEnv} {f : Nat} (ih : NfxIH cfg e f)
+    {ms : List Ty} {t' : Ty} (hr : rawD cfg (.union ms) = true) (hk : rawK cfg (.union ms) = true)
+    (h : optimizeUnion cfg e (f + 1) ms = .ok t') : nfx cfg t' = true ∧ t'.isOptNull = false := by
+  have hkm : ∀ t ∈ ms, rawK cfg t = true := by
+    simp only [rawK] at hk; exact (rawKList_iff cfg ms).mp hk
+  obtain ⟨O, Tj, Tl, Td, Ts, hO, hOms, lj, hTj, ll, hTl, ld, hTd, ls, hTs, hfin⟩ := union_shape hr h
+  have nfAll := (optimize_nf_all cfg e f).1
+  have segJ : Seg 13 13 Tj := by
+    refine ⟨lj, fun b hb => ?_, fun b hb => ?_⟩
+    · obtain ⟨m, _, _, hopt⟩ := hTj b hb
+      left; rw [optimize_kind hopt (by simp [Ty.kindN])]; rfl
+    · obtain ⟨m, hmr, _, hopt⟩ := hTj b hb
+      exact nfAll _ b hmr.Raw hopt
+  have segL : Seg 8 8 Tl := by
+    refine ⟨ll, fun b hb => ?_, fun b hb => ?_⟩
+    · obtain ⟨u, _, _, hopt⟩ := hTl b hb
+      left; rw [optimize_kind hopt (by simp [Ty.kindN])]; rfl
+    · obtain ⟨u, hu, _, hopt⟩ := hTl b hb
+      exact nfAll _ b (rawD_Raw (by simpa [rawD] using hu)) hopt
+  have segD : Seg 9 9 Td := by
+    refine ⟨ld, fun b hb => ?_, fun b hb => ?_⟩
+    · obtain ⟨u, _, _, hopt⟩ := hTd b hb
+      left; rw [optimize_kind hopt (by simp [Ty.kindN])]; rfl
+    · obtain ⟨u, hu, _, hopt⟩ := hTd b hb
+      exact nfAll _ b (rawD_Raw (by simpa [rawD] using hu)) hopt
+  have segS : Seg 3 6 Ts := by
+    refine ⟨ls, fun b hb => ?_, fun b hb => ?_⟩
+    · rcases hTs b hb with rfl | ⟨k, rfl, _⟩ <;> simp [Ty.kindN]
+    · rcases hTs b hb with rfl | ⟨k, rfl, _⟩ <;> simp [nf]
+  have hx : ∀ t ∈ O ++ Tj ++ Tl ++ Td ++ Ts, nfx cfg t = true := by
+    intro t ht
+    simp only [List.mem_append] at ht
+    rcases ht with (((h | h) | h) | h) | h
+    · exact nfx_leaf (hO.kind t h) (hkm t (hOms t h)) (fun o vs e => (hO.goodLit o vs (e ▸ h)).1)
+    · obtain ⟨m, hmr, hmk, hopt⟩ := hTj t h
+      exact (ih _ t hmr.Raw (hmk hkm).rawK hopt).1
+    · obtain ⟨u, hu, huk, hopt⟩ := hTl t h
+      exact (ih _ t (rawD_Raw (by simpa [rawD] using hu)) (by simpa [rawK] using huk hkm) hopt).1
+    · obtain ⟨u, hu, huk, hopt⟩ := hTd t h
+      exact (ih _ t (rawD_Raw (by simpa [rawD] using hu)) (by simpa [rawK] using huk hkm) hopt).1
+    · rcases hTs t h with rfl | ⟨k, rfl, hk'⟩
+      · simp [nfx]
+      · simpa [nfx] using hk'
+  exact finish_nfx hO segJ segL segD segS hx hfin
+
+theorem mapM_fields_keys {ε} (g : Ty → Except ε Ty) (fs fs' : List (String × Ty))
+    (h : fs.mapM (fun (kv : String × Ty) => do let v ← g kv.2; pure (kv.1, v)) = .ok fs') :
+    fs'.map (·.1) = fs.map (·.1) := by
+  induction fs generalizing fs' with
+  | nil => rw [mapM_nil_inv _ _ h]
+  | cons kv fs ih =>
+    obtain ⟨y, r', hy, hr', rfl⟩ := mapM_cons_inv _ kv fs fs' h
+    simp only [bind, Except.bind] at hy
+    split at hy
+    · cases hy
+    · simp only [pure, Except.pure, Except.ok.injEq] at hy
+      subst hy
+      simp [ih r' hr']
+
+theorem not_optNull_of_kind (t : Ty) (h : t.kindN ≠ 10) : t.isOptNull = false := by
+  cases hh : t.isOptNull with
+  | false => rfl
+  | true => exact absurd (isOptNull_kind t hh) h
+
+/-- fields of an object (detect level or merged): keys kept, values canonical -/
+theorem optimize_obj_nfx {cfg : GenCfg} {e : EqEnv} {f : Nat} (ih : NfxIH cfg e f)
+    {fs : Fields} {t' : Ty} (hraw : ∀ kv ∈ fs, Raw cfg kv.2 = true)
+    (hk : rawK cfg (.obj fs) = true) (h : optimize cfg e (f + 1) (.obj fs) = .ok t') :
+    nfx cfg t' = true ∧ t'.isOptNull = false := by
+  simp only [rawK, Bool.and_eq_true] at hk
+  have hkf := (rawKFields_iff cfg fs).mp hk.2
+  rw [optimize] at h
+  simp only [bind, Except.bind] at h
+  split at h
+  · cases h
+  · rename_i fs' hfs'
+    simp only [pure, Except.pure, Except.ok.injEq] at h; subst h
+    refine ⟨?_, rfl⟩
+    simp only [nfx, Bool.and_eq_true]
+    constructor
+    · have := mapM_fields_keys (optimize cfg e f) fs fs' hfs'
+      rw [this]; exact hk.1
+    · rw [nfxFields_iff]
+      intro kv' hkv'
+      obtain ⟨kv, hkv, hopt⟩ := mapM_mem_inv _ _ _ hfs' kv' hkv'
+      split at hopt
+      · cases hopt
+      · rename_i v hv
+        simp only [pure, Except.pure, Except.ok.injEq] at hopt; subst hopt
+        exact (ih kv.2 v (hraw kv hkv) (hkf kv hkv) hv).1
+
+theorem optimize_nfx_rawF {cfg : GenCfg} {e : EqEnv} {f : Nat} (ih : NfxIH cfg e f)
+    (ihU : ∀ ms t', rawD cfg (.union ms) = true → rawK cfg (.union ms) = true →
+      optimizeUnion cfg e f ms = .ok t' → nfx cfg t' = true ∧ t'.isOptNull = false)
+    {t t' : Ty} (hr : rawF cfg t = true) (hk : rawK cfg t = true)
+    (h : optimize cfg e (f + 1) t = .ok t') :
+    nfx cfg t' = true ∧ (rawD cfg t = true → t'.isOptNull = false) := by
+  cases t with
+  | int | float | bool | str | null | unknown =>
+    simp [optimize, pure, Except.pure] at h; subst h; simp [nfx, Ty.isOptNull]
+  | ser k =>
+    simp [optimize, pure, Except.pure] at h; subst h
+    exact ⟨by simpa [nfx, rawF, rawD] using hr, fun _ => rfl⟩
+  | ptr _ | tuple _ => simp [rawF, rawD] at hr
+  | lit ov vs =>
+    rw [optimize] at h
+    split at h
+    · simp only [pure, Except.pure, Except.ok.injEq] at h; subst h; simp [nfx, Ty.isOptNull]
+    · rename_i hc
+      simp only [pure, Except.pure, Except.ok.injEq] at h; subst h
+      simp only [Bool.or_eq_true, not_or, Bool.not_eq_true] at hc
+      refine ⟨?_, fun _ => rfl⟩
+      simpa [rawK, nfx, hc.1] using hk
+  | list x =>
+    have hx : rawD cfg x = true := by simpa [rawF, rawD] using hr
+    rw [optimize] at h
+    simp only [bind, Except.bind] at h
+    split at h
+    · cases h
+    · rename_i y hy
+      simp only [pure, Except.pure, Except.ok.injEq] at h; subst h
+      obtain ⟨h1, h2⟩ := ih x y (rawD_Raw hx) (by simpa [rawK] using hk) hy
+      exact ⟨by simp [nfx, h1, h2 hx], fun _ => rfl⟩
+  | dict x =>
+    have hx : rawD cfg x = true := by simpa [rawF, rawD] using hr
+    rw [optimize] at h
+    simp only [bind, Except.bind] at h
+    split at h
+    · cases h
+    · rename_i y hy
+      simp only [pure, Except.pure, Except.ok.injEq] at h; subst h
+      obtain ⟨h1, h2⟩ := ih x y (rawD_Raw hx) (by simpa [rawK] using hk) hy
+      exact ⟨by simp [nfx, h1, h2 hx], fun _ => rfl⟩
+  | opt x =>
+    have hx : rawD cfg x = true := by simpa [rawF] using hr
+    rw [optimize] at h
+    simp only [bind, Except.bind] at h
+    split at h
+    · cases h
+    · rename_i y hy
+      obtain ⟨h1, _⟩ := ih x y (rawD_Raw hx) (by simpa [rawK] using hk) hy
+      refine ⟨?_, fun hd => by simp [rawD] at hd⟩
+      split at h
+      · simp only [pure, Except.pure, Except.ok.injEq] at h; subst h
+        simpa [nfx] using h1
+      · simp only [pure, Except.pure, Except.ok.injEq] at h; subst h
+        simpa [nfx] using h1
+  | union ms =>
+    rw [optimize] at h
+    obtain ⟨h1, h2⟩ := ihU ms t' (by simpa [rawF] using hr) hk h
+    exact ⟨h1, fun _ => h2⟩
+  | obj fs =>
+    have hfs : ∀ kv ∈ fs, rawD cfg kv.2 = true := by
+      have : rawD cfg (.obj fs) = true := by simpa [rawF] using hr
+      simp only [rawD] at this
+      exact (rawDFields_iff cfg fs).mp this
+    obtain ⟨h1, h2⟩ := optimize_obj_nfx ih (fun kv hkv => rawD_Raw (hfs kv hkv)) hk h
+    exact ⟨h1, fun _ => h2⟩
+
+theorem optimize_nfx_all (cfg : GenCfg) (e : EqEnv) : ∀ fuel,
+    NfxIH cfg e fuel ∧
+    (∀ ms t', rawD cfg (.union ms) = true → rawK cfg (.union ms) = true →
+      optimizeUnion cfg e fuel ms = .ok t' → nfx cfg t' = true ∧ t'.isOptNull = false) := by
+  intro fuel
+  induction fuel with
+  | zero =>
+    constructor
+    · intro t t' _ _ h; simp [optimize] at h
+    · intro ms t' _ _ h; simp [optimizeUnion] at h
+  | succ f ih =>
+    refine ⟨?_, fun ms t' hr hk h => optimizeUnion_nfx_step ih.1 hr hk h⟩
+    intro t t' hr hk h
+    cases t with
+    | obj fs =>
+      simp only [Raw, List.all_eq_true] at hr
+      obtain ⟨h1, h2⟩ := optimize_obj_nfx ih.1 (fun kv hkv => rawF_Raw (hr kv hkv)) hk h
+      exact ⟨h1, fun _ => h2⟩
+    | _ => exact optimize_nfx_rawF ih.1 ih.2 (by simpa [Raw] using hr) hk h
+
+/-- **canonical form**: on raw metadata with sorted literals and distinct keys, `optimize_type` returns a
+    canonical normal form -/
+theorem optimize_nfc_raw (cfg : GenCfg) (e : EqEnv) (fuel : Nat) (t t' : Ty)
+    (hr : Raw cfg t = true) (hk : rawK cfg t = true) (h : optimize cfg e fuel t = .ok t') :
+    nfc cfg t' = true :=
+  nfc_of_nf_nfx cfg t' ((optimize_nf_all cfg e fuel).1 t t' hr h)
+    ((optimize_nfx_all cfg e fuel).1 t t' hr hk h).1
+
+/-! ### `detect` gives sorted literals and distinct keys -/
+
+mutual
+/-- object keys are distinct at every level (as in any Python dict) -/
+def keysOk : Json → Bool
+  | .arr xs => keysOkList xs
+  | .obj kvs => nodupStr (kvs.map (·.1)) && keysOkKvs kvs
+  | _ => true
+def keysOkList : List Json → Bool
+  | [] => true
+  | x :: xs => keysOk x && keysOkList xs
+def keysOkKvs : List (String × Json) → Bool
+  | [] => true
+  | (_, x) :: xs => keysOk x && keysOkKvs xs
+end
+
+theorem mkLit_single_rawK (cfg : GenCfg) (s : String) : rawK cfg (mkLit cfg.lit [s]) = true := by
+  rcases mkLit_cases cfg.lit [s] with h | h
+  · rw [h]; simp [rawK]
+  · rw [h]
+    simp only [rawK, Bool.false_or]
+    unfold litStable
+    unfold mkLit at h
+    split at h
+    · cases h
+    · rename_i hc
+      simp only [List.foldl_cons, List.foldl_nil, insertUniq, beq_self_eq_true, List.isEmpty_cons,
+        Bool.not_false, Bool.and_self, Bool.true_and, Bool.not_eq_true']
+      simpa using hc
+
+theorem wrapElems_rawK {cfg : GenCfg} (wrap : Ty → Ty) (hw : ∀ t, rawK cfg t = true → rawK cfg (wrap t) = true)
+    (ts : List Ty) (h : ∀ t ∈ ts, rawK cfg t = true) : rawK cfg (wrapElems cfg.lit wrap ts) = true := by
+  rw [wrapElems_eq]
+  split
+  · exact hw _ (h _ (by simp))
+  · exact hw _ (collapse1_rawK ts h)
+
+theorem convertFields_keys (cfg : GenCfg) (o : GenOracles) :
+    ∀ (xs : List (String × Json)) (fs : Fields), convertFields cfg o xs = .ok fs →
+      fs.map (·.1) = xs.map (·.1)
+  | [], fs, h => by
+    simp only [convertFields, pure, Except.pure, Except.ok.injEq] at h; subst h; rfl
+  | (k, x) :: xs, fs, h => by
+    simp only [convertFields, bind, Except.bind] at h
+    split at h
+    · cases h
+    · split at h
+      · cases h
+      · rename_i fs' hfs'
+        simp only [pure, Except.pure, Except.ok.injEq] at h; subst h
+        simp [convertFields_keys cfg o xs fs' hfs']
+
+mutual
+theorem detect_rawK (cfg : GenCfg) (o : GenOracles) :
+    ∀ (cd : Bool) (v : Json) (t : Ty), keysOk v = true → detect cfg o cd v = .ok t → rawK cfg t = true
+  | cd, .bool _, t, _, h | cd, .int _, t, _, h | cd, .float _, t, _, h | cd, .null, t, _, h => by
+    simp only [detect, pure, Except.pure, Except.ok.injEq] at h; subst h; simp [rawK]
+  | cd, .arr [], t, _, h => by
+    simp only [detect, pure, Except.pure, Except.ok.injEq] at h; subst h; simp [rawK]
+  | cd, .arr (x :: xs), t, hv, h => by
+    simp only [detect, bind, Except.bind] at h
+    split at h
+    · cases h
+    · rename_i ts hts
+      simp only [pure, Except.pure, Except.ok.injEq] at h; subst h
+      exact wrapElems_rawK .list (fun t ht => by simpa [rawK] using ht) ts
+        (detectList_rawK cfg o (x :: xs) ts (by simpa [keysOk] using hv) hts)
+  | cd, .obj [], t, _, h => by
+    simp only [detect, pure, Except.pure, Except.ok.injEq] at h; subst h; simp [rawK]
+  | cd, .obj (kv :: kvs), t, hv, h => by
+    simp only [keysOk, Bool.and_eq_true] at hv
+    simp only [detect, bind, Except.bind] at h
+    split at h
+    · cases h
+    · rename_i rx hrx
+      generalize (if rx = true then false else cd) = cd' at h
+      cases cd'
+      · simp only [Bool.false_eq_true, ↓reduceIte] at h
+        split at h
+        · cases h
+        · rename_i ts hts
+          simp only [pure, Except.pure, Except.ok.injEq] at h; subst h
+          exact wrapElems_rawK .dict (fun t ht => by simpa [rawK] using ht) ts
+            (detectVals_rawK cfg o (kv :: kvs) ts hv.2 hts)
+      · simp only [↓reduceIte] at h
+        split at h
+        · cases h
+        · rename_i fs hfs
+          simp only [pure, Except.pure, Except.ok.injEq] at h; subst h
+          simp only [rawK, Bool.and_eq_true]
+          refine ⟨?_, (rawKFields_iff cfg fs).mpr (convertFields_rawK cfg o (kv :: kvs) fs hv.2 hfs)⟩
+          rw [convertFields_keys cfg o _ fs hfs]; exact hv.1
+  | cd, .str s, t, _, h => by
+    simp only [detect, bind, Except.bind] at h
+    split at h
+    · cases h
+    · split at h
+      · simp only [pure, Except.pure, Except.ok.injEq] at h; subst h; simp [rawK]
+      · simp only [pure, Except.pure, Except.ok.injEq] at h; subst h
+        exact mkLit_single_rawK cfg s
+theorem detectList_rawK (cfg : GenCfg) (o : GenOracles) :
+    ∀ (xs : List Json) (ts : List Ty), keysOkList xs = true → detectList cfg o xs = .ok ts →
+      ∀ t ∈ ts, rawK cfg t = true
+  | [], ts, _, h => by
+    simp only [detectList, pure, Except.pure, Except.ok.injEq] at h; subst h; simp
+  | x :: xs, ts, hv, h => by
+    simp only [keysOkList, Bool.and_eq_true] at hv
+    simp only [detectList, bind, Except.bind] at h
+    split at h
+    · cases h
+    · rename_i t ht
+      split at h
+      · cases h
+      · rename_i ts' hts'
+        simp only [pure, Except.pure, Except.ok.injEq] at h; subst h
+        intro u hu
+        rcases List.mem_cons.mp hu with rfl | hu
+        · exact detect_rawK cfg o true x _ hv.1 ht
+        · exact detectList_rawK cfg o xs ts' hv.2 hts' u hu
+theorem detectVals_rawK (cfg : GenCfg) (o : GenOracles) :
+    ∀ (xs : List (String × Json)) (ts : List Ty), keysOkKvs xs = true → detectVals cfg o xs = .ok ts →
+      ∀ t ∈ ts, rawK cfg t = true
+  | [], ts, _, h => by
+    simp only [detectVals, pure, Except.pure, Except.ok.injEq] at h; subst h; simp
+  | (_, x) :: xs, ts, hv, h => by
+    simp only [keysOkKvs, Bool.and_eq_true] at hv
+    simp only [detectVals, bind, Except.bind] at h
+    split at h
+    · cases h
+    · rename_i t ht
+      split at h
+      · cases h
+      · rename_i ts' hts'
+        simp only [pure, Except.pure, Except.ok.injEq] at h; subst h
+        intro u hu
+        rcases List.mem_cons.mp hu with rfl | hu
+        · exact detect_rawK cfg o true x _ hv.1 ht
+        · exact detectVals_rawK cfg o xs ts' hv.2 hts' u hu
+theorem convertFields_rawK (cfg : GenCfg) (o : GenOracles) :
+    ∀ (xs : List (String × Json)) (fs : Fields), keysOkKvs xs = true → convertFields cfg o xs = .ok fs →
+      ∀ kv ∈ fs, rawK cfg kv.2 = true
+  | [], fs, _, h => by
+    simp only [convertFields, pure, Except.pure, Except.ok.injEq] at h; subst h; simp
+  | (k, x) :: xs, fs, hv, h => by
+    simp only [keysOkKvs, Bool.and_eq_true] at hv
+    simp only [convertFields, bind, Except.bind] at h
+    split at h
+    · cases h
+    · rename_i t ht
+      split at h
+      · cases h
+      · rename_i fs' hfs'
+        simp only [pure, Except.pure, Except.ok.injEq] at h; subst h
+        intro u hu
+        rcases List.mem_cons.mp hu with rfl | hu
+        · exact detect_rawK cfg o _ x _ hv.1 ht
+        · exact convertFields_rawK cfg o xs fs' hv.2 hfs' u hu
+end
+
+theorem generate_nfc_aux {cfg : GenCfg} {o : GenOracles} {samples : List Json} {t : Ty}
+    (hs : ∀ v ∈ samples, keysOk v = true) (h : generate cfg o samples = .ok t) : nfc cfg t = true := by
+  unfold generate at h
+  simp only [bind, Except.bind] at h
+  split at h
+  · cases h
+  · rename_i sets hsets
+    split at h
+    · cases h
+    · rename_i fields hfields
+      have hraw : AllRawF cfg fields := by
+        apply mergeFieldSets_rawF _ hfields
+        intro m hm
+        obtain ⟨v, _, hv⟩ := mapM_mem_inv _ _ _ hsets m hm
+        cases v <;> simp [convert] at hv
+        exact convertFields_rawD cfg o _ m hv
+      have hrawK : AllRawK cfg fields := by
+        apply mergeFieldSets_rawK _ hfields
+        intro m hm
+        obtain ⟨v, hvs, hv⟩ := mapM_mem_inv _ _ _ hsets m hm
+        have hkv := hs v hvs
+        cases v <;> simp [convert] at hv
+        simp only [keysOk, Bool.and_eq_true] at hkv
+        exact convertFields_rawK cfg o _ m hkv.2 hv
+      exact optimize_nfc_raw cfg _ _ _ t hraw.Raw hrawK.rawK h
+
 end J2M.C08P
